@@ -24,6 +24,7 @@ uint64_t vh_next(const char *kind);
 #define CHECK(c, msg) do { if (!(c)) { printf("CHECK-FAILED %s (%s:%d)\n", msg, __FILE__, __LINE__); vh_failed = 1; } } while (0)
 #define ASSUME(c) do { if (!(c)) { printf("ASSUME-FALSE %s (%s:%d)\n", #c, __FILE__, __LINE__); exit(vh_failed ? 1 : 3); } } while (0)
 #define WITNESS() do { } while (0)
+#define MUSTFAIL(c, msg) do { } while (0)
 #else
 unsigned char nondet_uchar(void);
 uint16_t nondet_u16(void);
@@ -33,6 +34,8 @@ size_t nondet_size(void);
 int nondet_int(void);
 #define CHECK(c, msg) __CPROVER_assert((c), msg)
 #define ASSUME(c) __CPROVER_assume(c)
+/* existence claim: the solver must be able to violate this assertion */
+#define MUSTFAIL(c, msg) __CPROVER_assert((c), "MUSTFAIL " msg)
 #ifdef NOWITNESS
 #define WITNESS() do { } while (0)
 #else
